@@ -84,6 +84,17 @@ def random_config(rng, kind, **force):
         cfg["objective"] = rng.choice(["onemax", "const", "plateau"])   # Objective maps trees to len(tree)
     if kind in ("DifferentialEvolution", "jDE", "SHADE") and rng.random() < 0.25:
         cfg["objective"], cfg["scale"] = "view", 1.0      # the objective returns a view of the population it was handed
+    # operator names and their numeric parameters (incl. the argument-parameterised *_k / custom_rate entries)
+    if kind == "GeneticAlgorithm" and rng.random() < 0.7:
+        cfg["ops"] = dict(selection=rng.choice(["tournament_k", "tournament_3", "rank", "proportional", "tournament_k"]),
+                          crossover=rng.choice(["uniform_k", "uniform_prop_k", "uniform_rank_k", "uniform_tour_k", "one_point", "two_point", "uniform_2", "empty"]),
+                          mutation=rng.choice(["custom_rate", "custom_rate", "weak", "average", "strong"]),
+                          tour_size=rng.choice([2, 3, 4]), parents_num=rng.choice([2, 3, 4]), mutation_rate=rng.choice([0.0625, 0.25, 0.5]))
+    if kind == "GeneticProgramming" and rng.random() < 0.7:
+        cfg["ops"] = dict(selection=rng.choice(["tournament_k", "tournament_3", "rank", "tournament_k"]),
+                          crossover=rng.choice(["gp_uniform_k", "gp_uniform_rank_k", "gp_uniform_tour_k", "gp_standard", "gp_one_point", "gp_uniform_prop_k"]),
+                          mutation=rng.choice(["gp_custom_rate_point", "gp_custom_rate_grow", "gp_custom_rate_shrink", "gp_weak_grow", "gp_average_point"]),
+                          tour_size=rng.choice([2, 3, 4]), parents_num=rng.choice([2, 3, 4]), mutation_rate=rng.choice([0.0625, 0.25, 0.5]))
     # integer-valued objectives returned as int64 arrays with values beyond 2^53 (exact in int64, not in float64)
     if kind in ("GeneticAlgorithm", "SelfCGA", "PDPGA", "DifferentialEvolution", "jDE") and rng.random() < 0.2:
         cfg.update(intobj=(1 << 60) if rng.random() < 0.7 else -(1 << 61), scale=1.0, offset=0.0, opt_mode="none", buffer=False,
@@ -107,7 +118,7 @@ def build(cfg, obj, g2p, callback, rng_init):
             init = cfg["_init_object"]           # the caller re-uses the very array object of an earlier run
         elif cfg["init"]:
             init = np.array([[rng_init.randint(0, 1) for _ in range(cfg["str_len"])] for _ in range(cfg["pop"])], dtype=np.byte)
-        opt = getattr(O, kind)(obj, str_len=cfg["str_len"], init_population=init, **common)
+        opt = getattr(O, kind)(obj, str_len=cfg["str_len"], init_population=init, **common, **(cfg.get("ops") or {}))
     elif kind in ("DifferentialEvolution", "jDE", "SHADE"):
         if cfg.get("_init_object") is not None:
             init = cfg["_init_object"]
@@ -126,8 +137,17 @@ def build(cfg, obj, g2p, callback, rng_init):
             from thefittest.utils.random import numba_seed
             numba_seed(int(cfg["seed"]) ^ 0x2545F491)     # the caller-supplied initial trees are a function of the configuration
             init = np.array([Tree.random_tree(uniset, 3) for _ in range(cfg["pop"])], dtype=object)
-        opt = getattr(O, kind)(obj, uniset=uniset, max_level=6, init_population=init, **common)
+        opt = getattr(O, kind)(obj, uniset=uniset, max_level=6, init_population=init, **common, **(cfg.get("ops") or {}))
     return opt, init
+
+
+SERIES_ATTR = {"s_proba": "_selection_proba", "c_proba": "_crossover_proba", "m_proba": "_mutation_proba",
+               "H_F": "_H_F", "H_CR": "_H_CR", "H_MR": "_H_MR", "F": "_F", "CR": "_CR"}
+
+
+def adapt_state(opt):
+    """deep copies of the live adaptation state (the quantities the subclasses also record in their history)"""
+    return {k: L.snap(getattr(opt, a)) for k, a in SERIES_ATTR.items() if hasattr(opt, a)}
 
 
 def observe(opt, obj, cfg):
@@ -151,7 +171,7 @@ def observe(opt, obj, cfg):
     return dict(pop_g=[ident(x) for x in pg], pop_ph=[ident(x) for x in pp], fitness=[num(v) for v in fi],
                 rec=(ident(rec_g), ident(rec_p), num(tf._fitness)), counter=int(tf._no_update_counter),
                 calls=int(opt._calls), remains=int(opt.get_remains_calls()), n_batches=len(obj.batches),
-                hist_len={k: len(v) for k, v in st.items()}, alias=alias,
+                hist_len={k: len(v) for k, v in st.items()}, alias=alias, adapt=adapt_state(opt),
                 raw=(L.snap(pg), L.snap(pp), L.snap(fi)), stats_copy={k: [L.snap(e) for e in v] for k, v in st.items()})
 
 
@@ -180,6 +200,7 @@ def run_trace(cfg):
         cfg["_uniset"] = make_uniset()
     opt, init = build(cfg, obj, g2p, cb, rng_init)
     init_before = L.snap(init) if init is not None else None
+    adapt_init = adapt_state(opt)
     if cfg.get("_between_build_and_fit") is not None:
         cfg["_between_build_and_fit"]()          # e.g. draws / other runs between constructing the optimizer and fit()
     opt.fit()
@@ -191,7 +212,7 @@ def run_trace(cfg):
         batches.append(dict(ph=[ident(x) for x in X], value=[num(t) for t in v], fit=[sign * num(t) for t in v]))
     return dict(cfg={k: v for k, v in cfg.items() if not k.startswith("_")}, batches=batches, g2p=(g2p.pairs if g2p else None),
                 snaps=snaps, final=final, stats=opt.get_stats(), opt=opt, obj=obj, init=init, init_before=init_before,
-                fittest=opt.get_fittest(), kept_reports=len(kept), kept_changed=kept_changed)
+                fittest=opt.get_fittest(), kept_reports=len(kept), kept_changed=kept_changed, adapt_init=adapt_init)
 
 
 def with_target(cfg):
